@@ -1157,6 +1157,60 @@ def encode(v, sort_sets=False):
     return {"c": spec.family, "f": [encode(getattr(v, g), sort_sets) for g in getters(spec)]}
 
 
+def tenc(v):
+    """Typed dump of a value through the public getters, in the shape the hashability model reads (Python container
+    types kept): null | {"r": "n/d"} | {"s": str} | {"t": "list"|"tuple"|"set"|"frozenset"|"dict"|"ndarray", "e": [...]}
+    (dict: [key, value] pairs; ndarray: no elements) | {"c": family, "f": [attribute, ...]}."""
+    import numpy as np
+    from common import rat
+    if v is None:
+        return None
+    if isinstance(v, (bool, np.bool_, int, np.integer)):
+        return {"r": f"{int(v)}/1"}
+    if isinstance(v, (float, np.floating)):
+        return {"r": rat(v)}
+    if isinstance(v, str):
+        return {"s": v}
+    if isinstance(v, enum.Enum):
+        return {"s": f"{type(v).__name__}.{v.name}"}
+    if isinstance(v, np.ndarray):
+        return {"t": "ndarray", "e": []}
+    for t, n in ((list, "list"), (tuple, "tuple"), (frozenset, "frozenset"), (set, "set")):
+        if isinstance(v, t):
+            return {"t": n, "e": [tenc(e) for e in v]}
+    if isinstance(v, dict):
+        return {"t": "dict", "e": [[tenc(k), tenc(x)] for k, x in v.items()]}
+    spec = family_of(v)
+    if spec is None:
+        raise TypeError(f"cannot encode {type(v)}")
+    if spec.family == "State":
+        names = sorted(v.attributes)
+        return {"c": "State", "f": [{"s": ",".join(names)}] + [tenc(getattr(v, n)) for n in names]}
+    if spec.name == "SignalState":
+        return {"c": "SignalState", "f": [tenc(getattr(v, g)) if hasattr(v, g) else ABSENT for g in getters(spec)]}
+    return {"c": spec.family, "f": [tenc(getattr(v, g)) for g in getters(spec)]}
+
+
+# values of the wrong type for (almost) every attribute: what __hash__ does with them exercises the builder of the attribute
+ILL_TYPED = [None, [1], [[1]], {"dict": [["k", [1]]]}]
+
+
+def ill_typed(r, d):
+    """correspondence probe for the hashability model: one constructor argument replaced by None / [1] / [[1]] / {'k': [1]}.
+    Returns (description, parameter, probe index) — the caller keeps it only if the constructor accepts it."""
+    spec = SPECS[d["cls"]]
+    names = spec.param_names(d)
+    if not names:
+        return None
+    n = r.choice(names)
+    i = r.randrange(len(ILL_TYPED))
+    new = copy.deepcopy(d)
+    new["args"][n] = copy.deepcopy(ILL_TYPED[i])
+    if d["cls"] == "CustomState" and r.random() < 0.5:
+        new["args"]["extra_attribute"] = copy.deepcopy(ILL_TYPED[i])
+    return new, n, i
+
+
 # ------------------------------------------------------------------------------------------------ description transformers
 
 def permute_sets(r, d):
